@@ -237,6 +237,20 @@ class P:
                 body = self.block()
                 stmts.append(('while', cond, body))
                 continue
+            if self.at('id', 'for'):
+                self.next()
+                pat = self.pat()
+                self.expect('id', 'in')
+                it = self.expr(nostruct=True)
+                body = self.block()
+                stmts.append(('for', pat, it, body))
+                continue
+            if self.at('id', 'continue') and (self.atp(';', 1) or self.atp('}', 1)):
+                self.next()
+                if self.atp(';'):
+                    self.next()
+                stmts.append(('continue',))
+                continue
             if self.at('id', 'break') and (self.atp(';', 1) or self.atp('}', 1)):
                 self.next()
                 if self.atp(';'):
@@ -684,6 +698,7 @@ class World:
         self.get_type = {}     # attribute struct name -> gallina constant
         self.const_vals = {}   # rust constant name -> python value (int, or float for f32)
         self.penums = {}       # payload enum name -> [(variant, payload rust type or None)]
+        self.opaque = {}       # opaque item type -> {predicate method name: gallina boolean function}; values are N
         self.on_demand = None  # callback (type or None, fn name) -> funcinfo or None: translate a helper of the current file when first called
         self.tried = set()
 
@@ -700,6 +715,11 @@ class World:
             return self.gty(m.group(1), self_ty)
         if ty in self.penums:
             return ty
+        if ty in self.opaque:
+            return 'N'
+        m = re.match(r'^(?:Iter|IterMut|std::slice::Iter)<(.+)>$', ty)
+        if m:
+            return 'list %s' % self.paren(self.gty(m.group(1), self_ty))
         m = re.match(r'^Result<(.*)>$', ty)
         if m:
             parts = split_top(m.group(1))
@@ -743,6 +763,9 @@ class World:
         ty = re.sub(r"'\w+\s*", '', ty or '')          # lifetimes
         ty = ty.replace(' ', '')
         ty = re.sub(r"^&(?:mut)?", '', ty)
+        ty = re.sub(r'<,+', '<', ty)
+        ty = re.sub(r',+>', '>', ty)
+        ty = re.sub(r',,+', ',', ty)
         ty = re.sub(r'<>', '', ty)
         ty = re.sub(r'^(\w+)<,*>$', r'\1', ty)          # Name<'a> after the lifetime was dropped
         m = re.match(r'^(?:Arc|Box|Rc)<(.+)>$', ty)
@@ -770,6 +793,7 @@ class Ctx:
         self.fn_gname = ''
         self.fn_rty = '_'
         self.break_k = None
+        self.continue_k = None
 
     def copy(self):
         c = Ctx(self.w, self.self_ty, self.ret_ty, self.recvs, self.fuel_used)
@@ -782,6 +806,7 @@ class Ctx:
         c.fn_gname = self.fn_gname
         c.fn_rty = self.fn_rty
         c.break_k = self.break_k
+        c.continue_k = self.continue_k
         return c
 
     def tmp(self, base='t'):
@@ -1220,6 +1245,15 @@ def tr_expr(e, cx, expect=None):
             if w.gty(inner_ty, cx.self_ty) != 'N':
                 raise Unsupported('unwrap of a non-numeric option')
             return 'opt_get %s' % atom(t), c + ['opt_is_some %s' % atom(t)], inner_ty
+        if not args:
+            t0, c0, ty0 = (None, None, None)
+            try:
+                t0, c0, ty0 = tr_expr(recv, cx)
+            except Unsupported:
+                pass
+            oty = w.norm(ty0, cx.self_ty) if ty0 else None
+            if oty in w.opaque and name in w.opaque[oty]:
+                return '%s %s' % (w.opaque[oty][name], atom(t0)), c0, 'bool'
         if name in ('len', 'to_vec', 'is_empty', 'as_slice', 'as_ref') and not args:
             t, c, ty = tr_expr(recv, cx)
             if is_bytes(w.norm(ty, cx.self_ty)):
@@ -1668,6 +1702,12 @@ def tr_stmts(stmts, tail, cx, k):
         if needs_hoist(e, cx):
             return with_tries(e, cx, None, le)
         return le(cx, e)
+    if s[0] == 'continue':
+        if cx.continue_k is None:
+            raise Unsupported('continue outside a loop')
+        return cx.continue_k(cx)
+    if s[0] == 'for':
+        return tr_for(s, rest, tail, cx, k)
     if s[0] == 'break':
         if cx.break_k is None:
             raise Unsupported('break outside a loop')
@@ -1844,6 +1884,45 @@ def tr_control(e, cx, k):
         st, sc, sty = tr_expr(e[1], cx)
         return chk(sc, with_scrut(cx, st, sty), cx)
     raise Unsupported('control %s' % e[0])
+
+
+def tr_for(s, rest, tail, cx, k):
+    """`for PAT in &mut PLACE { body }` over a list-typed place: a Fixpoint by structural recursion on the list; the place holds
+    the not yet visited elements (so an early `return` leaves the iterator where Rust leaves it)"""
+    pat, it, body = s[1], s[2], s[3]
+    key = place_key(it)
+    if key is None or not (key in cx.places or key in cx.vars):
+        raise Unsupported('for over %s' % (it,))
+    g, lty = cx.places[key] if key in cx.places else cx.vars[key]
+    glist = cx.w.gty(lty, cx.self_ty)
+    if not glist.startswith('list'):
+        raise Unsupported('for over a value of type %s' % lty)
+    m = re.match(r'^(?:Iter|IterMut|std::slice::Iter)<(.+)>$', cx.w.norm(lty, cx.self_ty))
+    ety = m.group(1) if m else None
+    if pat[0] != 'pid':
+        raise Unsupported('for pattern')
+    state = [(gg, ty) for (gg, ty) in cx.muts if gg != g]
+    names = [gg for gg, _ in state]
+    loop = cx.tmp('loop')
+    free = [(gg, ty) for rn, (gg, ty) in cx.vars.items() if gg not in names and gg != g]
+    lname = '%s_%s' % (cx.fn_gname, loop)
+    binders = ' '.join('(%s : %s)' % (gg, safe_gty(cx, ty)) for gg, ty in state)
+    fb = ' '.join('(%s : %s)' % (gg, safe_gty(cx, ty)) for gg, ty in free)
+    call_rest = '%s %s todo_ %s' % (lname, ' '.join(gg for gg, _ in free), ' '.join(names))
+
+    def after(cx2, v=None):
+        cx4 = cx2.copy()
+        cx4.break_k, cx4.continue_k = cx.break_k, cx.continue_k
+        return tr_stmts(rest, tail, cx4, k)
+    cxb = cx.copy()
+    cxb.vars[pat[1]] = (gal_name(pat[1]), ety)
+    cxb.break_k = lambda c2: after(c2)
+    cxb.continue_k = lambda c2: call_rest
+    body_t = tr_stmts(body[1], body[2], cxb, lambda c2, v: call_rest)
+    done_t = after(cx.copy())
+    cx.lifted.append('Fixpoint %s %s (todo_0 : %s) %s {struct todo_0} : %s :=\n  match todo_0 with\n  | [] => let %s := [] in\n  %s\n  | %s :: todo_ => let %s := todo_ in\n  %s\n  end.'
+                     % (lname, fb, glist, binders, cx.fn_rty, g, done_t, gal_name(pat[1]), g, body_t))
+    return '%s %s %s %s' % (lname, ' '.join(gg for gg, _ in free), g, ' '.join(names))
 
 
 def tr_control_iflet(pat, scrut, body, cx, k_body, k_else):
@@ -2211,6 +2290,11 @@ def main():
     emit_penum(lib, 'StunPacketDecodedValue')
     emit_fn('gen_StunPacketDecoder_new', lib, 'new', 'StunPacketDecoder', r'impl\s+StunPacketDecoder')
     emit_fn('gen_StunPacketDecoder_decode', lib, 'decode', 'StunPacketDecoder', r'impl\s+StunPacketDecoder')
+
+    # ---- stun-agent/src/lib.rs : the agent's own implementation of the RFC 8489 ordering rule (what the credential mechanisms read)
+    w.opaque['StunAttribute'] = {'is_message_integrity': 'attr_is_mi', 'is_message_integrity_sha256': 'attr_is_sha', 'is_fingerprint': 'attr_is_fp'}
+    emit_record(lib, 'ProtectedAttributeIteratorObject')
+    emit_fn('gen_ProtectedAttributeIterator_next', lib, 'next', 'ProtectedAttributeIteratorObject', r"impl<'a>\s+Iterator\s+for\s+ProtectedAttributeIteratorObject<'a>")
 
     # ---- stun-agent/src/rtt.rs : the RTO estimator (C15); Duration::mul_f32 is Agent/F32.mul_f32 (binary32, round to nearest even)
     rtt = 'stun-agent/src/rtt.rs'
